@@ -107,6 +107,8 @@ class ElementWithVars(ElementBase, Generic[VarType], ABC):
 
     def step(self, *args, **kwargs) -> None:
         """Steps the dynamics of this element."""
+        if not self._states:
+            return  # state-less elements have no dynamics to step
         assert self.states is not None, "States not initialized."
         next_states = self.step_dynamics(*args, **kwargs)
         if self.next_states is None:
